@@ -5,7 +5,7 @@ import z3
 from sx import core as S, env as E, pl, plh, families as F
 
 PROPERTY = "C03"
-REGIONS = ["override-present", "negative-sign", "integer-leaf", "generated-id-node", "value-outside-declared-box"]
+REGIONS = ["prefixed-subproposition-overridden", "override-present", "negative-sign", "integer-leaf", "generated-id-node", "value-outside-declared-box"]
 BOUNDS = ("PL family skeletons (<=7 compounds, depth<=3, <=6 leaves); thresholds |v|<=2^20 and signs symbolic on "
           "explicitly named AtLeast/AtMost nodes; integer-leaf boxes symbolic within [-32768,32767]; leaf values "
           "symbolic inside their box; <=2 sub-proposition overrides (presence and 0/1 value symbolic)")
@@ -34,6 +34,16 @@ def instantiations(tier, seed):
         ids = pl.explicit_ids(m)
         ov = rng.sample(ids, min(len(ids), 2)) if (k % 2 == 0) else []
         out.append({"model": m, "forms": forms, "override": ov, "ovform": FORMS[(k + 1) % 3], "warm": k % 3 == 1})
+        if ids and k % 2 == 1:
+            # sub-propositions whose own variable is declared constant, overridden (or not) by the interpretation: the interpretation wins
+            import copy as _copy
+            mp = _copy.deepcopy(m)
+            n_ = 0
+            for c in pl.compounds(mp):
+                if c.get("id") and c["t"] != "Not":
+                    c["vb"] = [[1, 1], [0, 0], [0, 1]][(k + n_) % 3]
+                    n_ += 1
+            out.append({"model": mp, "forms": forms, "override": rng.sample(ids, min(len(ids), 2)), "ovform": FORMS[k % 3]})
         if k % 3 == 0:
             # the interpretation wins over the declared bounds (documented: variable("a", bounds=(1,1)).evaluate({"a": 0}) == (0,0)):
             # leaf values free in [-2^20, 2^20] whatever the box, boxes may be degenerate
@@ -114,6 +124,8 @@ def run_inst(spec, run):
             return
         if any(res["i1"].decided.get(k) for k in ovs):
             run.region("override-present")
+            if any(c.get("vb") in ([1, 1], [0, 0]) and res["i1"].decided.get(c.get("id")) for c in pl.compounds(model_spec)):
+                run.region("prefixed-subproposition-overridden")
         if any(v == -1 for v in ctx.fixed.values()):
             run.region("negative-sign")
         if any((lo, hi) != (0, 1) for lo, hi in pl.leaves(model_spec).values()):
@@ -129,7 +141,8 @@ def run_inst(spec, run):
                 viol.append(z3.BoolVal(True))
                 continue
             viol.append(z3.Or(S.term(bnd.lower) != ref[nid], S.term(bnd.upper) != ref[nid]))
-        if not any(res["i1"].decided.get(k) for k in ovs):
+        prefixed = any(c.get("vb") in ([1, 1], [0, 0]) for c in pl.compounds(model_spec))
+        if not any(res["i1"].decided.get(k) for k in ovs) and not prefixed:     # a fixed node hides its descendants from the result
             if set(r) != res["allids"]:
                 viol.append(z3.BoolVal(True))
         viol.append(z3.Or(S.term(res["top"].lower) != ref[res["topid"]], S.term(res["top"].upper) != ref[res["topid"]]))
